@@ -710,7 +710,7 @@ def tape_suite(ctx):
     """repeated executions inside the helpers: the order in which the jobs consume the ONE global
     generator (model: tapeRun, driver command PT), and same seed + one worker = the plain loop."""
     rng = ctx.rng
-    lines, wants, bad_seed = [], [], 0
+    lines, wants, bad_seed, bad_part, part_msg = [], [], 0, 0, ""
     for rep in range(5 if ctx.thorough else 2):
         for k in [1, 2, 3]:
             n = rng.choice([1, 2])
@@ -739,6 +739,17 @@ def tape_suite(ctx):
                 want_d = nshots * (len(descs[a]["chans"]) + 1)
                 if len(jobs[j].get("draws", [])) != want_d or len(r.samples(binary=False)) != nshots:
                     wants[-1] = "job %d drew %d times (expected %d)" % (j, len(jobs[j].get("draws", [])), want_d)
+            # conclusions of T14_par_tape_partition / _in_order on the real run: the answers of the ONE
+            # generator are handed out without gap or repetition, each job sees its own in stream order
+            alld = [x for j in jobs for x in j.get("draws", [])]
+            if sorted(alld) != list(range(len(alld))) or any(list(j.get("draws", [])) != sorted(j.get("draws", [])) for j in jobs):
+                bad_part += 1
+                ctx.fail("parallel-tape:partition",
+                         f"answers of the global generator are not partitioned among the parallel jobs in stream order: {[list(j.get('draws', [])) for j in jobs]} (circuits {descs}, jobs {addrs}, nshots {nshots}, workers {k}, seed {seed})",
+                         PAR_SRC + f"\nbe, ts, res = run_noisy({descs!r}, {addrs!r}, {nshots}, {k}, {seed}, {['random', 'roundrobin'][rep % 2]!r})\nd = sorted(x for s2 in be.segments if 'result' in s2 for x in s2.get('draws', []))\nraise SystemExit(0 if d == list(range(len(d))) else 1)\n",
+                         expected="a partition of 0..N-1, increasing per job", observed=str([list(j.get('draws', [])) for j in jobs])[:300],
+                         broken=["C14_search_parallel_tape_partition"])
+                part_msg = part_msg or f"draw positions per job {[list(j.get('draws', [])) for j in jobs]} (circuits {descs}, jobs {addrs}, nshots {nshots}, workers {k})"
             # same seed, one worker
             for helper in (("circuits", "execution") if (k == 1 and rep == 0) else ("circuits",)):
                 if helper == "execution":  # 1000 shots per job (the helper has no nshots argument)
@@ -755,6 +766,8 @@ def tape_suite(ctx):
     bad = [(w, o) for w, o in zip(wants, outs) if o.split(" # ")[0].strip() != w.strip()]
     ctx.ob("C14_corr_parallel_tape", not bad, "correspondence",
            f"{len(bad)} runs: positions of the generator's answers per job {bad[0][0]!r}, model {bad[0][1]!r}" if bad else "")
+    ctx.ob("C14_search_parallel_tape_partition", bad_part == 0, "search",
+           f"{bad_part} runs where the generator's answers are not partitioned among the jobs in stream order: {part_msg}" if bad_part else "")
     ctx.ob("C14_search_parallel_seed_repeated", bad_seed == 0, "search", f"{bad_seed} seeded one-worker runs differ from the plain loop" if bad_seed else "")
 
 
